@@ -544,7 +544,7 @@ def mk_item(idx, front, kind="ok", nres=1, ex=None, die=None, cut=None, sync=Fal
     return it
 
 
-def die_spec(mode="plain", code=3, close_stdin=False, delay_close=0, delay_exit=60):
+def die_spec(mode="plain", code=3, close_stdin=False, delay_close=0, delay_exit=25):
     d = {"mode": mode, "code": code}
     if close_stdin:
         d["close_stdin"] = True
@@ -752,6 +752,9 @@ class C19(Check):
             fn = {"parser": lambda s: isinstance(s, str) and s.strip()}.get(case["front"], ace._possible_mrs)
             v = fn(case["s"])
             return cps(v.rstrip()) if v else None
+        hit = getattr(self, "_cache", {}).pop(id(case), None)
+        if hit is not None and hit[0] is case:
+            return hit[1]
         if not hasattr(self, "workdir") or not os.path.isdir(self.workdir):
             self.setup()
         return run_case(case, self.workdir)
@@ -1084,15 +1087,42 @@ class C19(Check):
     def cases(self, rng, tier, n):
         out = []
         k = 0
+        from .common.runner import load_corpus
+        in_corpus = {json.dumps(c, sort_keys=True) for _, c in load_corpus(self.pid)}
         for c in self.fixed_cases(tier):
+            if json.dumps(c, sort_keys=True) in in_corpus:
+                continue          # the same session already ran as a corpus case
             out.append(c)
         for c in validate_cases(rng, 40 if tier == "quick" else 400):
             out.append(c)
-        budget = max(0, n - len([c for c in out if c.get("op") != "validate"]))
+        budget = 40 if tier == "quick" else 500      # random sessions on top of the deterministic blocks
         while k < budget:
             out.append(self.random_case(rng, tier))
             k += 1
+        self.prefetch(out)
         return out
+
+    PREFETCH_WORKERS = 4
+
+    def prefetch(self, cases):
+        """the sessions are independent of each other (own scenario directory, own front-end object, own child
+        processes) and spend their time waiting for child processes: run them on a few threads and let `impl`
+        hand out the stored observation.  Replays, shrinking and the corpus do not go through here."""
+        from concurrent.futures import ThreadPoolExecutor
+        self._cache = {}
+        todo = [c for c in cases if c.get("op") != "validate"]
+        if not todo or not hasattr(self, "workdir") or not os.path.isdir(self.workdir):
+            return
+
+        def one(c):
+            try:
+                return c, run_case(c, self.workdir)
+            except Exception:      # noqa: BLE001 — left to the sequential path, which reports it
+                return c, None
+        with ThreadPoolExecutor(max_workers=self.PREFETCH_WORKERS) as ex:
+            for c, r in ex.map(one, todo):
+                if r is not None:
+                    self._cache[id(c)] = (c, r)
 
     def fixed_cases(self, tier):
         import random as _r
@@ -1208,7 +1238,7 @@ class C19(Check):
                         it["die"] = die_spec("plain", code, False, rng.choice([0, 1, 5]), rng.choice([0, 1, 3, 10, 30]))
                     else:
                         cs_ = rng.random() < 0.3
-                        it["die"] = die_spec("plain", code, cs_, rng.choice([0, 0, 5, 15]), 150 if cs_ else 60)
+                        it["die"] = die_spec("plain", code, cs_, rng.choice([0, 0, 5, 15]), 150 if cs_ else 25)
                         it["sync"] = True if not cs_ else rng.random() < 0.5
                 else:
                     it["die"] = die_spec(mode, code, False, rng.choice([0, 0, 5]))
